@@ -22,6 +22,10 @@
 (***************************************************************************)
 EXTENDS Run, IOUtils
 
+CONSTANT ItemHook   \* TRUE: the trace comes from fn_graph built with `interruptible`, whose item futures emit the hook `item`;
+                    \* FALSE: built with its default features (other closures, no InterruptibleStream, no `item` hook):
+                    \* the hand-over to the user closure is recognised by the harness' own `start` event alone
+
 Rec == ndJsonDeserialize(IOEnv.TRACE)
 
 VARIABLES l, okf, scn, live
@@ -88,7 +92,7 @@ TCall ==
 
 (* fold bodies: the item is handed to the fold closure in the same step (hook `item`, then `start`) *)
 TPullFold ==
-  /\ IsFoldApi /\ IsHook("item") /\ okf /\ live
+  /\ ItemHook /\ IsFoldApi /\ IsHook("item") /\ okf /\ live
   /\ SPull
   /\ LET e == Rec[l] IN
      IF e.f # 0
@@ -110,7 +114,7 @@ TPull ==
 
 (* ... and its first poll: hook `item`, then the harness' `start` *)
 TStart ==
-  /\ ~IsFoldApi /\ IsHook("item") /\ okf /\ live
+  /\ ItemHook /\ ~IsFoldApi /\ IsHook("item") /\ okf /\ live
   /\ SStart
   /\ LET e == Rec[l]  it == Head(pulled) IN
      /\ it.f = e.f /\ it.int = e.interrupted
@@ -118,6 +122,20 @@ TStart ==
         THEN Has(l + 1) /\ Rec[l+1].ev = "start" /\ Rec[l+1].f = e.f /\ l' = l + 2
         ELSE l' = l + 1
   /\ Keep
+
+(* the same two steps for the default-feature build: no `item` hook, nothing is ever interrupted *)
+TPullFoldP ==
+  /\ ~ItemHook /\ IsFoldApi /\ IsEv("start") /\ okf /\ live
+  /\ SPull
+  /\ Len(started') = Len(started) + 1 /\ started'[Len(started')] = Rec[l].f
+  /\ intRun' = intRun
+  /\ Step /\ Keep
+
+TStartP ==
+  /\ ~ItemHook /\ ~IsFoldApi /\ IsEv("start") /\ okf /\ live
+  /\ SStart
+  /\ Head(pulled).f = Rec[l].f /\ ~Head(pulled).int
+  /\ Step /\ Keep
 
 TFinish ==
   /\ IsEv("end") /\ okf /\ live
@@ -182,8 +200,9 @@ Silent ==
      \/ (~IsFoldApi /\ SPull /\ Len(pulled') = Len(pulled) + 1 /\ pulled'[Len(pulled')].f = 0)
   /\ UNCHANGED <<l, okf, scn, live>>
 
-Matched == {"reset", "build", "call", "end", "signal", "return", "abort"}
-MatchedHooks == IF IsFoldApi THEN {"item", "q_recv"} ELSE {"item", "q_recv", "ready_recv"}
+Matched == {"reset", "build", "call", "end", "signal", "return", "abort"} \cup (IF ItemHook THEN {} ELSE {"start"})
+MatchedHooks == (IF IsFoldApi THEN {"item", "q_recv"} ELSE {"item", "q_recv", "ready_recv"})
+                \ (IF ItemHook THEN {} ELSE {"item"})
 
 TSkip ==
   /\ Has(l)
@@ -201,7 +220,7 @@ TDrift ==
 
 TEnd == l = Len(Rec) + 1 /\ scn # "" /\ Verdict /\ l' = l + 1 /\ Frozen /\ Keep
 
-TNext == TReset \/ TBuild \/ TCall \/ TPullFold \/ TPull \/ TStart \/ TFinish \/ TQRecv \/ TSignal \/ TSignalInside
+TNext == TReset \/ TBuild \/ TCall \/ TPullFold \/ TPull \/ TStart \/ TPullFoldP \/ TStartP \/ TFinish \/ TQRecv \/ TSignal \/ TSignalInside
          \/ TReturn \/ TAbort \/ Silent \/ TSkip \/ TEnd
 TNextD == TNext \/ (~ENABLED TNext /\ TDrift)
 
